@@ -86,11 +86,16 @@ def file_task(task):
     n = 0
     ss = sites(lines)
     per_kind = {}
+    # texts of the other comments / literals of the same file (the 42 header lines included) are replacement candidates
+    # too: what one comment says must not matter to what is reported about another one
+    others = [l.text()[2:-2] for l in pre if l.kind == "hdr42"]
+    others += [x[4] for x in ss]
     for si, (li, pi, kind, pfx, inner, sfx, forb) in enumerate(ss):
         if only is not None and si != only:
             continue
         per_kind[kind] = per_kind.get(kind, 0) + 1
-        for rep in pool(len(inner), forb, cap):
+        copies = [o for o in dict.fromkeys(others) if len(o) == len(inner) and o != inner and not any(f in o for f in forb)]
+        for rep in pool(len(inner), forb, cap) + copies:
             if rep == inner or (kind == "blockcomment-interior" and rep.startswith("/")):
                 continue            # '**' + '/' would close the comment: the delimiter must not be formed
             # a block comment whose text starts with '/' right after '/*' is still inside the comment
